@@ -701,6 +701,9 @@ class SimProcess:
         self.target_done = False
         self.pending_signals = []
         self.sig_handlers = {}
+        self.reaped_by_other = False  # os.waitpid() outside multiprocessing collected the exit status
+        self.status_known = False  # multiprocessing itself has seen the exit status
+        self.spawner = None
 
     def __deepcopy__(self, memo):
         return self
@@ -724,6 +727,10 @@ class SimProcess:
             return False
         w.seam(Op("is_alive", self.label))
         w.on_liveness_poll(self)
+        if self.reaped_by_other and not self.status_known:
+            return True  # somebody else's waitpid() took the exit status: multiprocessing never learns it
+        if self.dead:
+            self.status_known = True
         return not self.dead
 
     @property
@@ -732,6 +739,10 @@ class SimProcess:
         if not self._started:
             return None
         w.seam(Op("exitcode", self.label))
+        if self.reaped_by_other and not self.status_known:
+            return None
+        if self.dead:
+            self.status_known = True
         return self._exitcode if self.dead else None
 
     @property
@@ -761,6 +772,8 @@ class SimProcess:
         )
         if not to:
             self.joined = True
+            if not self.reaped_by_other:
+                self.status_known = True
 
     def terminate(self):
         self._signal(15)
@@ -894,6 +907,7 @@ class SimWorld:
                 proc.faults.append(ft)
         # fork: the child inherits the signal dispositions and every pipe end its parent has open
         me = self.current_proc()
+        proc.spawner = me
         proc.sig_handlers = dict(getattr(me, "sig_handlers", {}))
         for c in self.connections:
             if me in c.holders:
@@ -1023,8 +1037,16 @@ class SimWorld:
             self.note_probe("death_with_torn_frame")
 
     def _release_fds(self, proc):
+        """called once when a process has died (fds closed; its parent gets SIGCHLD)"""
         for c in self.connections:
             c.holders.discard(proc)
+        sp = getattr(proc, "spawner", None)
+        if sp is not None and not getattr(proc, "sigchld_sent", False):
+            proc.sigchld_sent = True
+            h = sp.sig_handlers.get(17)
+            if callable(h) and sp.task is not None and sp.task.state != "done":
+                sp.task.sig_pending.append((17, h))
+                self.note_probe("sigchld_handler_queued")
 
     # ---- kernel action providers
     def _feeder_actions(self):
